@@ -13,6 +13,7 @@
    the model's (Writer.wstep under the per-call environment `io`, the configuration arithmetic,
    CApiRead.from_config_G, Reader.linear_extract + deliver, read_header_S); what is translated and
    proved is the control logic around them.  The pointer abstraction is listed in tools/src2v3_capi.py. *)
+From MLA Require Import Limit.
 From MLA Require Import Base Stream Blocks Writer Reader CApi CApiProofs CApiRead CApiReadProofs.
 From MLAGen Require Import Src3a.
 From Coq Require Import ZifyBool ZifyNat ZifyN.
@@ -154,6 +155,7 @@ Lemma cst_eq_trans s s' s'' : cst_eq s s' -> cst_eq s' s'' -> cst_eq s s''.
 Proof. intros H H' i. destruct (H i) as (?&?&?&?), (H' i) as (?&?&?&?). repeat split; congruence. Qed.
 
 Section Tie.
+  Context {LIM : Limit}.
   Variable FNMAX : N.
   Variables T_START T_CONTENT T_EOA T_EOF : N.
   Variable H : bytes -> bytes.
@@ -323,6 +325,7 @@ Proof. destruct e, privs; reflexivity. Qed.
 
 Section ReadTie.
   Variables CHUNK TAG BLOCK LIMIT FNMAX : N.
+  Local Hint Extern 0 Limit => exact LIMIT : typeclass_instances.
   Variables TS TC TA TE : N.
   Variable dh : bytes -> bytes -> bytes.
   Variable kdf : bytes -> bytes.
@@ -454,6 +457,7 @@ End ReadTie.
    for EVERY behaviour of the library calls and callbacks (all r_* universally quantified), a call that
    returns the status st acts on the table as capi_step's CExtract / CInfo with outcome st ---------- *)
 Section ReadHandles.
+  Context {LIM : Limit}.
   Variable FNMAX : N.
   Variables T_START T_CONTENT T_EOA T_EOF : N.
   Variable H : bytes -> bytes.
@@ -509,6 +513,7 @@ End ReadHandles.
    translated function returns a status: never NullDeref, never DanglingHandle (a Box dropped while a caller
    variable still points to it), never a crash site of the writer. *)
 Section Carried.
+  Context {LIM : Limit}.
   Variable FNMAX : N.
   Variables T_START T_CONTENT T_EOA T_EOF : N.
   Variable H : bytes -> bytes.
